@@ -1,11 +1,13 @@
+\* the id's offset field is narrower than the block (the pinned code: 16 bits for a 512 KiB block): TLC must find an id that
+\* does not lead back to its object
 CONSTANTS
   Blobs <- MCBlobs
   NoBlob = NoBlob
   LenOf <- MCLen
-  BlockSize = 7
+  BlockSize = 6
   Prefix = 2
   Cksum = 1
-  OffMod = 16
+  OffMod = 2
   CODE_CapacityIgnoresPrefix = FALSE
 SPECIFICATION Spec
 CONSTRAINT Bounded
